@@ -26,4 +26,6 @@ Separate Extraction
   interpolate_poly_c interpolate_poly_with_offset_c infer_degree_c
   fftidx_permute_index fftidx_permute_index_ok
   (* the four-step FFT of the concurrent build *)
-  split_radix_fft split_radix_fft_spec_tr evaluate_poly_concurrent interpolate_poly_concurrent.
+  split_radix_fft split_radix_fft_spec_tr evaluate_poly_concurrent interpolate_poly_concurrent
+  evaluate_poly_with_offset_concurrent interpolate_poly_with_offset_concurrent
+  segment_new_concurrent build_segments_concurrent evaluate_polys_over_concurrent.
